@@ -55,6 +55,19 @@ PROPS["C06"] = dict(
     trusted_base=["Dump() output parsed from captured stdout gives the implementation's shape; values are ints"],
     assumptions=["the comparison function is a total preorder (sign-antisymmetric, transitive); the harness uses integer order"],
 )
+PROPS["C01"] = dict(
+    n_quick=24000, n_thorough=2400000, shards=8, coq_dirs=["C01", "common"],
+    rule="cases: operand pairs (a,b) of 128-bit words + a shift count + a bit index; words drawn from an edge set (0,1,2^k-1,2^k,2^k+1 for k in "
+         "31,32,33,62,63, all-ones, sign bits), sparse, dense and uniformly-random-bit-length words; pair shapes: small divisor, divisor "
+         "with a high word, division-shaped a=q*b+r, equal/neighbouring values, one-bit divisors, close leading-zero counts. Each case "
+         "calls all 76 arithmetic/comparison/bit methods of Uint128 and Int128 (64-bit variants use b's low word, as uint64 and as int64). "
+         "non-trivial = the unsigned division leaves the 64-bit fast path and is not by zero/one (classes div-pow2, div-le, div-by64, "
+         "div-by128, div-bin); distinct = distinct case text",
+    trivial_class=r"(div-by-zero|div-by-one|div-64bit|^bad$|^exn$)",
+    trusted_base=["math/bits primitives (Add64, Sub64, Mul64, Len64, LeadingZeros64, TrailingZeros64, OnesCount64) are modelled by their "
+                  "mathematical definitions on Z"],
+    assumptions=["shift counts are >= 0 (Go uint)", "the 64-bit platform int"],
+)
 
 # properties not (yet) claimed, with the reason; an entry is dropped automatically once the property is in PROPS
 NOT_APPLICABLE = {
@@ -63,6 +76,17 @@ NOT_APPLICABLE = {
 }
 
 MANIFEST_TEXT = {
+    "C01": dict(
+        level_text="Proof: Add/Sub/Mul/Inc/Dec and the 64-bit variants equal arithmetic mod 2^128; Cmp and all 11+10 predicates equal the order on "
+                   "the values; And/Or/Xor/AndNot/Not (+64 variants), Bit, SetBit, BitLen, LeadingZeros, TrailingZeros, OnesCount equal the "
+                   "binary representation; LeftShift/RightShift equal *2^n mod 2^128 and /2^n for every n >= 0; Int128 Add/Sub/Mul/Inc/Dec/"
+                   "Add64/Sub64/Mul64/Neg/Abs/AbsUint128/Sign/Cmp/predicates equal two's-complement arithmetic -- Coq theorems for all "
+                   "well-formed operands over an executable transcription of both files. Division (Div, Mod, DivMod, 64-bit and signed "
+                   "forms: five algorithms) is transcribed in the model and decided per run by correspondence + exact big-integer "
+                   "quotient/remainder on the implementation's answers; its theorems are listed in DESIGN.md as not yet proved.",
+        level_note="Trusted: Coq kernel, extraction, drivers, harness; model hand-written, tied by correspondence on sampled operand pairs "
+                   "(all division paths reached, class histogram in the evidence).",
+        technique="Coq proof (lia/nia over Z with explicit mod 2^64 wrap, bit extensionality) on a hand-written Gallina model + differential correspondence check"),
     "C06": dict(
         level_text="Proof: for every history of Insert/Remove and every total preorder, the model tree (zipper transcription of the CLRS "
                    "fix-ups as written) never gets stuck, its in-order sequence equals the stably ordered multimap spec, and the red-black "
